@@ -14,8 +14,10 @@ from .. import mslab, msmodel as ms
 from ..core import Result, split
 
 LEVEL = "exploration"
-RULE = ("announced mechanism lists: all subsets (in two orders) of {DIGEST-MD5, PLAIN, LOGIN, "
-        "OAUTHBEARER, SCRAM-SHA-1, GSSAPI} incl. the empty list and a missing SASL capability "
+RULE = ("announced mechanism lists: random subsets/orders of {DIGEST-MD5, PLAIN, LOGIN, "
+        "OAUTHBEARER, SCRAM-SHA-1, GSSAPI and unimplemented names that contain an implemented "
+        "one: PLAIN-CLIENTTOKEN, XLOGIN, X-PLAIN-SUBMIT, OAUTHBEARER-X, DIGEST-MD5-SESS, "
+        "LOGIN2} incl. the empty list and a missing SASL capability "
         "x authmech in {None, DIGEST-MD5, PLAIN, LOGIN, OAUTHBEARER, X-UNKNOWN} x credentials "
         "(ASCII, non-ASCII, comma, equals sign, double quote, space, long; NUL-free) x "
         "authorisation id {empty, set} x server verdict {accept, NO, BYE}. Non-trivial = a "
@@ -33,7 +35,8 @@ FLOORS = {"quick": {"connects": 6000, "mech:PLAIN": 500, "mech:LOGIN": 500,
 SHARD_TIMEOUT = {"quick": 600, "thorough": 3000}
 
 IMPLEMENTED = ["DIGEST-MD5", "PLAIN", "LOGIN", "OAUTHBEARER"]
-ALL = IMPLEMENTED + ["SCRAM-SHA-1", "GSSAPI"]
+ALL = IMPLEMENTED + ["SCRAM-SHA-1", "GSSAPI", "PLAIN-CLIENTTOKEN", "XLOGIN", "X-PLAIN-SUBMIT",
+                     "OAUTHBEARER-X", "DIGEST-MD5-SESS", "LOGIN2"]
 LOGINS = ["user", "user@example.com", "üser", "a,b", "a=b", 'q"q', "with space", "x" * 80,
           "名前", "back\\slash", "=2C", "u,=v"]
 PASSWORDS = ["secret", "pässwörd €", "p,w=d", 'p"w', "", " lead", "y" * 120, "tok.en-123_~+/="]
@@ -61,7 +64,7 @@ def expected_mech(announced, authmech):
 def run_shard(tier, shard, res: Result):
     rng = random.Random(shard["rs"])
     for i in range(shard["n"]):
-        k = rng.choice([0, 1, 1, 2, 3, 4, 6])
+        k = rng.choice([0, 1, 1, 2, 3, 4, 6, 8])
         announced = rng.sample(ALL, k)
         if rng.random() < 0.08:
             announced = None
